@@ -100,7 +100,7 @@ func checkC10(c *Ctx) {
 	// the deepest inputs of this check need a few GiB in the worker: a wider memory budget than the default
 	c.Pool.Env = append(c.Pool.Env, "ZNWORKER_RSS_LIMIT_MB=10240")
 	c.Pool.LongRetry = true
-	c.rule = "API driver: every receiver of a 53-value pool (dictionaries with unusual but legal keys - the empty text, a blank, NUL, a quote, number spellings, a 200-character key - among them) (all value types incl. objects, types, library functions, exception, Go value) x every member name extracted from the working tree (+unknown names) x {get, set, call, new, fn, str, dup, twin (continue on the copy), cmp, json} x argument tuples (arity 0..1 exhaustive over a 33-value boundary pool, arity 2 exhaustive in thorough, arity 2..4 random; for list / dictionary / text receivers additionally every position and position pair in [-2, length+2]; for dictionary receivers every member with key paths that begin with the receiver's own keys), applied as step sequences on one receiver; plus scripted histories that copy a list / dictionary of 0..9 elements and alternate insertions and removals between the value and its copy, displaying both. Program driver: one- and two-statement Zn programs applying every operator / index / member / call / new / throw / loop form to input variables drawn from the same pools; plus user methods / type methods whose body ends in each of 25 failures (with no handler, a handler without and with 输出) whose call is placed in each of 26 consumer positions. Whole-program driver: programs made of definitions / comments / imports only and programs yielding each kind of value, through Execute and through the playground HTTP handler; runaway recursion (plain, mutual, through a type method, through a constructor) without a logical budget. Input-variable driver: texts without any statement (line breaks, comments, imports only), every right-hand-side kind, failing and ill-formed texts through ExecVarInputText. Traversal driver: every mutating list / dictionary method applied to the collection a 遍历 is running over (lists of 1, 2, 3, 6 items; directly, in a called method, through an alias parameter). Host driver: 21 programs served by ZnHttpHandler that answer with an HTTP响应 object whose 头部 / 状态码 / 内容 have the wrong type or whose status is 0, negative, fractional, 99, 1000, 1e19, infinite or NaN. Violation = recovered Go panic, nil element without error, worker exit, or hang. distinct_nontrivial = distinct (receiver kind, step kind, member, arg kinds, outcome kind)"
+	c.rule = "API driver: every receiver of a 53-value pool (dictionaries with unusual but legal keys - the empty text, a blank, NUL, a quote, number spellings, a 200-character key - among them) (all value types incl. objects, types, library functions, exception, Go value) x every member name extracted from the working tree (+unknown names) x {get, set, call, new, fn, str, dup, twin (continue on the copy), cmp, json} x argument tuples (arity 0..1 exhaustive over a 33-value boundary pool, arity 2 exhaustive in thorough, arity 2..4 random; for list / dictionary / text receivers additionally every position and position pair in [-2, length+2]; for dictionary receivers every member with key paths that begin with the receiver's own keys), applied as step sequences on one receiver; plus scripted histories that copy a list / dictionary of 0..9 elements and alternate insertions and removals between the value and its copy, displaying both. Program driver: one- and two-statement Zn programs applying every operator / index / member / call / new / throw / loop form to input variables drawn from the same pools; plus user methods / type methods whose body ends in each of 25 failures (with no handler, a handler without and with 输出) whose call is placed in each of 26 consumer positions. Whole-program driver: programs made of definitions / comments / imports only and programs yielding each kind of value, through Execute and through the playground HTTP handler; runaway recursion (plain, mutual, through a type method, through a constructor) without a logical budget. Input-variable driver: texts without any statement (line breaks, comments, imports only), every right-hand-side kind, failing and ill-formed texts through ExecVarInputText. Traversal driver: every mutating list / dictionary method applied to the collection a 遍历 is running over (lists of 1, 2, 3, 6 items; directly, in a called method, through an alias parameter). Host driver: 21 programs served by ZnHttpHandler that answer with an HTTP响应 object whose 头部 / 状态码 / 内容 have the wrong type or whose status is 0, negative, fractional, 99, 1000, 1e19, infinite or NaN. Huge-result driver: 替换 / 拼接 / 分隔 on ordinary-sized texts whose result would need 2^49 bytes. Violation = recovered Go panic, nil element without error, worker exit, or hang. distinct_nontrivial = distinct (receiver kind, step kind, member, arg kinds, outcome kind)"
 	c.assumptions = []string{"library functions run inside the worker's private scratch directory", "member tables are read from /repo sources at check time by a string-literal scan"}
 	rng := c.Rand("c10")
 	members := memberNames()
@@ -519,6 +519,7 @@ func checkC10(c *Ctx) {
 	// copied 1500-level template below the innermost list of its argument, thousands of times),
 	// then copied, displayed, compared, searched, reversed, thrown …: every helper that walks a
 	// value must come back with a value or a Zn error, not with a Go stack overflow
+	c10HugeResults(c)
 	c10DeepValues(c)
 	preqs := make([]Req, len(pjobs))
 	for i, p := range pjobs {
@@ -676,6 +677,40 @@ func c10DeepProgram(rounds int, dict bool, triggers []string) string {
 	}
 	sb.WriteString("输出 结果\n")
 	return sb.String()
+}
+
+// c10HugeResults: text operations whose *result* would be astronomically large although every
+// operand is of ordinary size (a 16 MB text replaced into itself, a long connector between two
+// million items, a text repeated by formatting): a value or a Zn error, never a Go panic of the
+// allocator and never a dead process
+func c10HugeResults(c *Ctx) {
+	grow := "令S = “a”\n令I = 0\n每当 I < 24：\n\tS = 以S（拼接：S）\n\tI = I + 1\n令T = 以S（拼接：S）\n"
+	progs := map[string]string{
+		"replace-every-character-by-a-long-text": grow + "令R = 以S（替换：“a”、T）\n输出 R之长度\n",
+		"replace-the-empty-text-by-a-long-text":  grow + "令R = 以S（替换：“”、T）\n输出 R之长度\n",
+		"replace-in-a-method-with-a-handler":     grow + "如何试？\n\t输入甲、乙\n\t输出 以甲（替换：“a”、乙）之长度\n\n\t拦截异常：\n\t\t输出 -1\n输出（试：S、T）\n",
+		"join-a-long-list-with-a-long-connector": grow + "令列 = 【“x”】\n令J = 0\n每当 J < 21：\n\t以列（合并：列）\n\tJ = J + 1\n令R = 以列（拼接：T）\n输出 R之长度\n",
+		"split-a-long-text-by-the-empty-text":    "令S = “a”\n令I = 0\n每当 I < 22：\n\tS = 以S（拼接：S）\n\tI = I + 1\n输出 以S（分隔：“”）之长度\n",
+	}
+	names := SortedKeys(progs)
+	reqs := []Req{}
+	for _, n := range names {
+		r := execReq(progs[n])
+		r.EvalBudget = 0
+		reqs = append(reqs, r)
+	}
+	c.runBatches(reqs, 1, func(i int, req *Req, resp *Resp) {
+		c.Eval()
+		c.Nontrivial("huge|" + names[i] + "|" + resp.Kind)
+		c.Count("huge_result_programs", 1)
+		if resp.Kind == "timeout" {
+			c.Count("huge_result_not_judged_watchdog", 1)
+			return
+		}
+		if resp.Kind != "value" && resp.Kind != "error" {
+			c.Violation("huge:"+names[i], fmt.Sprintf("%s: the host does not survive an operation on ordinary-sized texts whose result would be huge: outcome %s %s\nprogram:\n%s", names[i], resp.Kind, clip(resp.Panic+resp.Stderr, 400), progs[names[i]]), map[string]interface{}{"req": req})
+		}
+	})
 }
 
 func c10DeepValues(c *Ctx) {
